@@ -267,6 +267,23 @@ func (m *charsetModel) lookupOf(fv ssa.Value) *snifLookup {
 			}}
 		}
 	}
+	nonNil := func(de core.DomEdge) bool {
+		cond, val := core.StripNot(de.Cond, de.Val)
+		bo, ok := cond.(*ssa.BinOp)
+		if !ok {
+			return false
+		}
+		for _, pr := range [][2]ssa.Value{{bo.X, bo.Y}, {bo.Y, bo.X}} {
+			if pr[0] == fv && core.IsNilConst(pr[1]) {
+				return (bo.Op == token.NEQ && val) || (bo.Op == token.EQL && !val)
+			}
+		}
+		return false
+	}
+	if lk, ok := fv.(*ssa.Lookup); ok && m.isSnifferMap(lk.X) && !lk.CommaOk {
+		// plain lookup: a missing key yields the nil function, so the test is `!= nil`
+		return &snifLookup{key: lk.Index, found: nonNil}
+	}
 	if call, ok := fv.(*ssa.Call); ok && m.dispFn != nil && call.Call.StaticCallee() == m.dispFn {
 		return &snifLookup{key: call.Call.Args[0], found: func(de core.DomEdge) bool {
 			cond, val := core.StripNot(de.Cond, de.Val)
